@@ -268,6 +268,40 @@ def extra_oracles(rng, tier):
         ok = ok and app.before == (b, b3) and app.after == (a, a3) and r1 is b3 and r2 is a3
     if not ok:
         out.append(Violation("c19-decorators", "decorator/alias forms", "decorator or deprecated alias registered differently"))
+    # hooks given as bound methods: every `obj.method` is a new object equal to the others - registration, removal,
+    # the "already registered" and the "not registered" answers go by equality, like the lists they are kept in
+    class Hooks:
+        def before(self, req):
+            return None
+
+        def after(self, req, res):
+            return res
+    hk, other = Hooks(), Hooks()
+    for add, pop, view, meth in (("add_before_response", "pop_before_response", "before", "before"),
+                                 ("add_after_response", "pop_after_response", "after", "after")):
+        app2 = Application("verif_c19_bm_%d" % rng.randrange(10 ** 9))
+        getattr(app2, add)(getattr(hk, meth))
+        getattr(app2, add)(getattr(other, meth))
+        evals = 0
+        try:
+            getattr(app2, add)(getattr(hk, meth))
+            out.append(Violation("c19-hook-twice", "%s(obj.%s) twice" % (add, meth), "a hook was registered twice"))
+        except ValueError:
+            pass
+        getattr(app2, pop)(getattr(hk, meth))
+        left = list(getattr(app2, view))
+        if left != [getattr(other, meth)]:
+            out.append(Violation("c19-pop-bound", "%s(obj.%s); %s(obj.%s)" % (add, meth, pop, meth),
+                                 "after removing the hook the view holds %r" % (left,)))
+        try:
+            getattr(app2, pop)(getattr(hk, meth))
+            out.append(Violation("c19-pop-absent", "%s(obj.%s) twice" % (pop, meth), "removing an absent hook did not raise"))
+        except ValueError:
+            pass
+        try:
+            getattr(app2, add)(getattr(hk, meth))
+        except ValueError as err:
+            out.append(Violation("c19-readd", "%s after %s" % (add, pop), "a removed hook cannot be registered again: %r" % (err,)))
     # a filter defined on one application belongs to that application only: another application
     # (existing or created later) keeps the built-in meaning of the name, in its view and in dispatch
     evals = 12
